@@ -20,6 +20,7 @@ func init() {
 	preludeFuns["OccI"] = preludeFun{[]Sort{ArrSort(SInt, SInt), SInt, SInt, SInt}, SInt}
 	preludeFuns["OccR"] = preludeFun{[]Sort{ArrSort(SInt, SReal), SInt, SInt, SReal}, SInt}
 	preludeFuns["pow2"] = preludeFun{[]Sort{SInt}, SInt}
+	preludeFuns["Tot"] = preludeFun{[]Sort{ArrSort(SInt, SReal)}, SReal}
 	preludeFuns["SetSum"] = preludeFun{[]Sort{ArrSort(SInt, SReal), ArrSort(SInt, SBool)}, SReal}
 	preludeFuns["OccX"] = preludeFun{[]Sort{ArrSort(SInt, SF), SInt, SInt, SF}, SInt}
 	preludeFuns["XSum"] = preludeFun{[]Sort{ArrSort(SInt, SF), SInt, SInt}, SReal}
@@ -39,6 +40,7 @@ const preludeMath = `
 (declare-fun f64bits ((_ FloatingPoint 11 53)) (_ BitVec 64))
 (declare-fun OccX ((Array Int XF) Int Int XF) Int)
 (declare-fun SetSum ((Array Int Real) (Array Int Bool)) Real)
+(declare-fun Tot ((Array Int Real)) Real)
 (declare-fun XSum ((Array Int XF) Int Int) Real)
 `
 
